@@ -153,10 +153,33 @@ static void run_ops(vh_rng* r, struct world* w, int nops, const char* who) {
       if (h->p) { delete_held(h, w->stopped ? "-inside-stop-window" : ""); }
       h->p = p; h->how = HK_RAW; h->id = id; h->is_box = 0;
       vh_op("%s new_raw(id %" PRId64 ")", who, id);
+    } else if (roll < 52 && w->stopped) {
+      /* inside a stop window nothing is registered: a Box made here, and what it owns, exist for their owner only.
+         Deleting the Box (here, or after the collector runs again) must still finalise the owned object. */
+      if (vh_chance(r, 60)) {
+        int64_t id; var t = new_probe(r, HK_MANAGED, &id);
+        var b = new(Box, t);
+        if (h->p) { delete_held(h, "-inside-stop-window"); }
+        h->p = b; h->how = HK_UNREGISTERED; h->id = 0; h->owned_id = id; h->is_box = 1;
+        vh_op("%s held Box(id %" PRId64 ") [stopped]", who, id);
+        vh_count("boxes_made_inside_stop_window");
+      } else {
+        var c = vh_chance(r, 50) ? (var)new(Array, Box) : (var)new(List, Box);
+        int n = 1 + (int)vh_below(r, 5); int64_t ids[8];
+        for (int i = 0; i < n; i++) { var t = new_probe(r, HK_MANAGED, &ids[i]); push(c, $B(t)); }
+        if (vh_chance(r, 40)) { pop(c); n--; expect_released(ids[n], "pop-of-a-Box-element-inside-stop-window"); }
+        del(c);
+        for (int i = 0; i < n; i++) { expect_released(ids[i], "del-of-a-container-of-boxes-inside-stop-window"); }
+        vh_op("%s container of %d boxes made and deleted [stopped]", who, n);
+        vh_count("containers_of_boxes_inside_stop_window");
+      }
     } else if (roll < 52 && !w->stopped) {
-      /* Box owning a managed probe; both garbage, or the box is held and deleted by hand later */
-      int64_t id; var t = new_probe(r, HK_MANAGED, &id);
+      /* Box owning a managed probe (or, one time in four, a raw one the collector does not know); both garbage, or
+         the box is held and deleted by hand later */
+      int raw_owned = vh_chance(r, 25);
+      int64_t id; var t = new_probe(r, raw_owned ? HK_RAW : HK_MANAGED, &id);
       var b = new(Box, t);
+      if (raw_owned) { vh_count("boxes_owning_a_raw_object"); }
       if (vh_chance(r, 35)) {
         if (h->p) { delete_held(h, ""); }
         h->p = b; h->how = HK_MANAGED; h->id = 0; h->owned_id = id; h->is_box = 1;
